@@ -29,6 +29,17 @@ def map_cases(rng, n):
     return out
 
 
+def classify(run):
+    """Narrow class of the one known finding: Clear on float64 keys left exactly the NaN-keyed entries, nothing else, no panic."""
+    for r in run.rejections:
+        e = r["segment"][-1] if r["segment"] else {}
+        if e.get("op") == "MClear" and e.get("ty") == "float" and r["clause"] == "I_Map" and e.get("panic") == "":
+            pairs = lambda f: sorted((f[i], f[i + 1]) for i in range(0, len(f) - 1, 2))
+            nan_in = [p for p in pairs(e["aux"]) if p[0] == 0]
+            if nan_in and pairs(e["after"]) == nan_in:
+                r["cls"] = "only-NaN-keyed-entries-left"
+
+
 def check(run):
     ml = 3 if run.quick() else 5
     mc = model_check(run, "slices", "Functional", dict(Vals=tla_set([1, 2, 3]), MaxLen=ml), invariants=["LoopsOK", "DefsSane"],
@@ -66,6 +77,15 @@ def check(run):
     for c0 in map_cases(run.rng, 0):
         if not c0["aux"]:
             plans.append([dict(c0, nils=True)])
+    # the map helpers on float64 keys, NaN included (key id 0; several NaN entries can coexist, with distinct values here)
+    for m in ([], [1, 5], [0, 5], [0, 5, 0, 6], [1, 5, 0, 6], [1, 5, 2, 6, 0, 7, 0, 8, 0, 9], [3, 7, 1, 7]):
+        for op in ("MClone", "MClear", "MKeys", "MValues"):
+            plans.append([dict(op=op, s=[], a=0, b=0, aux=m, fam="", ty="float")])
+        for a in (5, 6, 9, 4):
+            plans.append([dict(op="MKeyOf", s=[], a=a, b=0, aux=m, fam="", ty="float")])
+            plans.append([dict(op="MContainsValue", s=[], a=a, b=0, aux=m, fam="", ty="float")])
+        for a in (1, 2, 3):
+            plans.append([dict(op="MHasKey", s=[], a=a, b=0, aux=m, fam="", ty="float")])
     import itertools
     for ty in ("byte", "string"):
         for n in range(0, 4):
@@ -101,6 +121,7 @@ def check(run):
     pl2 = [[dict(p[0], **(p[0].get("x") or {}))] for p in plans]
     conf = conformance(pl2, segs, ["rs", "ri", "rb", "rg"])
     validate(run, "slices", "FunctionalAbsTrace", {}, segs, CLAUSES, plans=plans)
+    classify(run)
     run.cov.update(conformance=conf, exhaustive=True,
                    distinct_nontrivial=distinct_count(segs, lambda s: len(s[0]["s"]) + len(s[0]["aux"]) > 0),
                    rule="one case per (helper, input slice over {1,2,3} up to length %d, callback-family parameter) cell enumerated by TLC "
@@ -115,4 +136,5 @@ def check(run):
 def replay(run, rp):
     segs = execute(run, [rp["plan"]])
     validate(run, "slices", "FunctionalAbsTrace", {}, segs, CLAUSES, plans=[rp["plan"]])
+    classify(run)
     return finish(run, reexec=lambda rej: execute(run, [rej["plan"]])[0])
